@@ -138,6 +138,58 @@ func checkC20(c *km.Ctx) {
 					}
 				}
 			}
+			if pub == nil && kind == "x509" && !c.P.IsRecorded(fn) && len(c.G.Callers[fn]) > 0 {
+				// a signing stage new to the tree that hands the signed bytes back: the function it was cut out of
+				// publishes them - at every call of the stage, on its success edge, before every hand-out
+				ri := -1
+				for _, rc := range s.RetCases(fn) {
+					for i, rv := range rc.Results {
+						if cl, idx := callRes(km.Unwrap(rv)); cl == sign && idx == 0 {
+							ri = i
+						}
+					}
+				}
+				okAll, why := ri >= 0, "the stage does not hand back the signed bytes"
+				for _, cs := range c.G.Callers[fn] {
+					gcall, isCall := cs.Instr.(*ssa.Call)
+					if !isCall || ri < 0 {
+						okAll = false
+						continue
+					}
+					var pub2 ssa.CallInstruction
+					for _, c2 := range km.CallsIn(cs.Caller) {
+						if km.CalleeFull(c2.Common()) == want && km.InstrDominates(gcall, c2) {
+							if cl, idx := callRes(km.Unwrap(km.CallArgs(c2.Common())[1])); cl == gcall && idx == ri {
+								pub2 = c2
+							}
+						}
+					}
+					if pub2 == nil {
+						okAll, why = false, "no publication of the stage's result in "+km.FuncName(cs.Caller)
+						continue
+					}
+					if !c.F.At(pub2).All(func(k km.Conj) bool { return s.Holds(k, signOK) }) {
+						okAll, why = false, "publication in "+km.FuncName(cs.Caller)+" is not dominated by the signing call's err == nil edge"
+					}
+					for _, c3 := range km.CallsIn(cs.Caller) {
+						n3 := km.CalleeFull(c3.Common())
+						isBody := (n3 == "fmt.Fprintf" || (c3.Common().IsInvoke() && c3.Common().Method.Name() == "Write")) && len(c3.Common().Args) > 0
+						if !isBody || !km.InstrDominates(gcall, c3) {
+							continue
+						}
+						for _, a := range c3.Common().Args {
+							if (derivesFromCallResult(a, gcall, 0) || derivesFromVariadic(a, gcall)) && !km.InstrDominates(pub2, c3) {
+								okAll, why = false, "response written at "+posOf(c, c3)+" before/without the publication"
+							}
+						}
+					}
+				}
+				if okAll {
+					why = "published by the caller of the signing stage, on its success edge, before every hand-out"
+				}
+				r.Add("R-C20-1", km.FuncName(fn), "publish after "+short(km.CalleeFull(ci.Common())), posOf(c, ci), short(want)+"(bytes of the certificate just signed) dominated by err == nil and dominating every hand-out", why, okAll)
+				continue
+			}
 			if pub == nil {
 				r.Add("R-C20-1", km.FuncName(fn), "publish after "+short(km.CalleeFull(ci.Common())), posOf(c, ci), short(want)+"(bytes of the certificate just signed) on the success path", "no such publication in this function", false)
 				continue
